@@ -244,7 +244,7 @@ PROPERTIES = {
     },
     "C14": {
         "rule": "rapidcheck: tissues of 2-5 level-1 cells (chain / cluster / inside an ECM shell / nucleus in a cell / apart; all-epithelial or "
-                "mixed classes) a few sizes from the origin; translation classes {0.4 size, 10, 100, 1000 sizes, across the origin, integer "
+                "mixed classes) a few sizes from the origin, every cell turned about its own centre by a generated rotation; translation classes {0.4 size, 10, 100, 1000 sizes, across the origin, integer "
                 "multiples of the contact-grid voxel}; 10-45 iterations, growth on/off, dt in {5e-4, 1e-3, 2e-3}; four real solvers in "
                 "lock-step (reference, translated, two noise runs), 1 thread. Sub 'division': one division (real cell_divider::divide_cell, "
                 "identical sampling seeds through hook H2) of a cell in the state the solver divides cells in - caches filled by the previous force "
@@ -254,9 +254,10 @@ PROPERTIES = {
                 "a translation other than the 0.4-size class; distinct = hash of the case.",
         "min_nontrivial": 10,
         "assumptions": ["position tolerance = max(1e-12 s, 1e4 x the response of the reference run to representation-error-sized coordinate "
-                        "noise, 64 F eps (1 + D/s)^3 s per iteration); a case whose noise response exceeds 1e-9 s is inconclusive",
-                        "a discrete divergence is reported only if neither noise run diverges and no edge length / triangle score of the "
-                        "reference state is within 1e-6 of its threshold (otherwise counted as tie_inconclusive)"],
+                        "noise, 512 F eps (1 + D/s)^3 s per iteration); a case whose noise response exceeds 1e-9 s is inconclusive",
+                        "a divergence is reported only if neither noise run diverges and no decision quantity of the reference state sits on its threshold: edge "
+                        "lengths / triangle scores within 1e-6, node-face distances vs the cut-offs, node-normal dot products vs cos 90 / cos 45 and curvature vs its "
+                        "limit within 1e-9 (otherwise counted as tie_inconclusive)"],
         "jobs": [J("C14_translate", subs=["lockstep"], quick={"cases": 6, "shards": 12, "max_size": 40}, thorough={"cases": 300, "shards": 16, "max_size": 60},
                    env={"VERIF_TMP": "/verif/build/run"}),
                  J("C14_translate", subs=["lockstep"], variant="san-dm1", quick={"cases": 6, "shards": 4, "max_size": 40}, thorough={"cases": 150, "shards": 8, "max_size": 60},
